@@ -190,6 +190,8 @@ def pits_trigger_rule(db, chk, uname, impls):
                         nm = callee.bn.split("::")[-1]
                         if nm == "compute_basins":
                             return None
+                        if nm == "size" and ("grid" in (callee.cls or "") or (callee.cls or "").endswith("flow_graph_impl")):
+                            return 12
                         if nm == "is_base_level":
                             return it.rv(it.eval(call["a"][0], frame)) in base
                         if nm == "get_basin_graph":
@@ -219,7 +221,7 @@ def pits_trigger_rule(db, chk, uname, impls):
                         break
                 gobj = Obj(model.GRAPH_IMPL, {"m_outlets": PyVec(outlets), "m_pits": PyVec([99]),
                                               "m_base_levels": frozenset(base), "m_mask_initialized": False,
-                                              "m_basins": PyVec()})
+                                              "m_basins": PyVec(), "m_grid": Sym("grid", "grid")})
                 it = Interp(PW(), max_steps=20000)
                 this = Obj(fn.cls, {"m_basin_graph_ptr": None, "m_op_ptr": Obj(MST, {"m_route_method": 0, "m_basin_method": 0})})
                 bad = []
